@@ -3,6 +3,7 @@ _COMMON = [
     'gcc 12 / x86-64 LP64 little-endian; library rebuilt from /repo working tree with -fsanitize=address,undefined',
 ]
 SPEC = dict(
+    lsan=True,
     harness=['h_oom.c'],
     level='fault_enumeration',
     memcheck_cases={'thorough': 240},
